@@ -644,7 +644,14 @@ fn load_ctx(ctx: &Path, id: &str) -> std::sync::Arc<CaseCtx> {
     copy_tree(&cdir.join("post"), &d);
     let (new, _) = recover_guarded(&case, &d, false);
     let _ = std::fs::remove_dir_all(&d);
-    let header = json!({"op": "new", "case": id, "routine": case.routine, "ops": case.ops, "def": case.raw,
+    // sizes of the files after the completed save (the monitor uses them to tell a complete new file from a torn one)
+    let (mut pdirs, mut pfiles) = (vec![], vec![]);
+    walk(&cdir.join("post"), Path::new(""), &mut pdirs, &mut pfiles);
+    let post: Vec<Value> = pfiles
+        .iter()
+        .map(|f| json!({"name": f, "len": std::fs::metadata(cdir.join("post").join(f)).map(|m| m.len()).unwrap_or(0)}))
+        .collect();
+    let header = json!({"op": "new", "case": id, "routine": case.routine, "ops": case.ops, "def": case.raw, "post": post,
                         "old": old, "new": new, "mem_new": hist["mem_new"], "save": hist["save"],
                         "roundtrip_same": new["proj"] == hist["mem_new"]});
     let c = std::sync::Arc::new(CaseCtx { case, pre, writes, header });
